@@ -1,6 +1,7 @@
 import Cuke.Model.Writers
 import Cuke.Props.C13
 import Cuke.Props.C02
+import Cuke.Lemmas.SummarizeGuard
 /-!
 # C12 — Summary counters equal what the event stream contains
 Model: `Cuke.Summ` (Cuke/Model/Summarize.lean) inside `Cuke.handle (.summ w)`.
@@ -872,4 +873,39 @@ example : obs kx (feedScen (catx 2) kx (some ⟨1, 0⟩) (feedAtts (catx 2) kx {
       (runAttempt passingLast 8).events) =
     (none, { passed := 1, skipped := 0, failed := 0, retried := 1 }) := by decide +kernel
 
+
+/-! ## The guard of the model's one truncated subtraction
+
+`Summarize::handle_scenario` does `scenarios.skipped -= 1` when a `Hook::Failed` arrives for a scenario marked
+`Skipped` — an arithmetic underflow in the code when `skipped = 0` (a panic with overflow checks, a wrap without),
+a silent `0 - 1 = 0` in the model's `Nat`. Lemmas/SummarizeGuard.lean. -/
+
+open Cuke.SummG in
+/-- **No underflow.** On every stream that never has a second failed hook after a skipped step within one attempt
+    (`OneFailedHookPerSkip`, a condition on the stream alone; every Runner stream satisfies it: a skipped step ends
+    the attempt's steps, the After hook runs once, then Finished) the decrement is never reached with
+    `skipped = 0`: the model's arithmetic is the code's arithmetic, for streams of any length and interleaving. -/
+theorem summ_no_underflow (cat : Catalog) (evs : List Ev) (h : OneFailedHookPerSkip evs = true) :
+    guardRun cat {} evs = true :=
+  guardRun_from cat {} {} evs (Or.inr ginv2_init) h
+
+open Cuke.SummG in
+/-- … in particular on every stream in which no scenario path has two failed hooks at all (the guard the
+    arbitrary-stream generator of the correspondence stays inside) -/
+theorem summ_no_underflow_of_nodup (cat : Catalog) (evs : List Ev) (h : (hookFailedKeys evs).Nodup) :
+    guardRun cat {} evs = true :=
+  summ_no_underflow cat evs (ghost_of_nodup_from {} evs h (fun _ _ hc => by cases hc))
+
+/-- the guard is not vacuous, and it is needed: after a skipped step, ONE failed hook is fine (a retried attempt may
+    bring another skipped step and another failed hook), a SECOND one within the attempt reaches the decrement
+    with nothing to subtract -/
+example :
+    Cuke.SummG.OneFailedHookPerSkip [.scen kx none (.step 0 .skipped), .scen kx none (.hook .after (.failed 1)), .scen kx none .finished,
+      .scen kx none (.step 0 .skipped), .scen kx none (.hook .after (.failed 1)), .scen kx none .finished] = true ∧
+    Cuke.SummG.guardRun (catx 1) {} [.scen kx none (.step 0 .skipped), .scen kx none (.hook .after (.failed 1)),
+      .scen kx none (.hook .before (.failed 1))] = false ∧
+    Cuke.SummG.OneFailedHookPerSkip [.scen kx none (.step 0 .skipped), .scen kx none (.hook .after (.failed 1)),
+      .scen kx none (.hook .before (.failed 1))] = false := by decide
+
 end Cuke.C12
+
